@@ -100,6 +100,10 @@ structure Cfg where
   fileSet : FileSet
   params : Params
   ghost : Bool := true
+  /-- work budget of the driver (0 = none): when the call count exceeds it `run` gives up with `none`.
+      It can only turn an answer into `none`, so every theorem of the form "if run returns …" holds for
+      every budget; the termination theorem (C02) is stated for `maxCalls = 0`. -/
+  maxCalls : Nat := 0
 
 def St.logEv (st : St) (cfg : Cfg) (e : Ev) : St := if cfg.ghost then { st with log := e :: st.log } else st
 
@@ -290,6 +294,7 @@ def endErrMsg : Bytes := tokOf "was expecting the end of input"
 def run (cfg : Cfg) : Nat → G → Ctx → Nat → St → Option (Out × St)
   | 0, _, _, _, _ => none
   | fuel + 1, g, ctx, pos, st =>
+    if cfg.maxCalls ≠ 0 ∧ st.calls > cfg.maxCalls then none else
     match g with
     | .term t =>
       match t.parse cfg.params cfg.file pos with
